@@ -244,6 +244,8 @@ class Executor(HeapMixin, ExprMixin, CallMixin, ContractMixin, StmtMixin):
                 if entry == "fresh":
                     continue
                 self.allowed_writes.append(self.resolve_mod(entry, env, st))
+            if c.ghost_entry:
+                self.ghost_exec(c.ghost_entry, st)
             # lemmas
             for name, lem in c.lemmas.items():
                 self.prove_lemma(name, lem, env, st)
